@@ -155,7 +155,7 @@ pub fn gen_plan(property: &str, seed: u64, index: u64, tier: Tier) -> Plan {
             if mode < 3 {
                 // fresh context per search, sparse board, deeper
                 let (_, s) = choose_start(&mut rng, &[(StartKind::Endgame, 1)]);
-                start = s;
+                start = if rng.chance(1, 4) { Pos::from_fen(*rng.pick(&TERMINAL_FENS[..])).unwrap() } else { s };
                 depth = if thorough { rng.range(3, 5) as u8 } else { rng.range(3, 4) as u8 };
                 knobs.insert("reuse".into(), 0);
                 scenario = "fresh-context-endgame";
@@ -226,7 +226,7 @@ pub fn gen_plan(property: &str, seed: u64, index: u64, tier: Tier) -> Plan {
             lru = *rng.pick(&[1usize, 2, 7, 64, 4096, 100_000]);
             let (kind, s) = choose_start(
                 &mut rng,
-                &[(StartKind::Initial, 3), (StartKind::Suite, 4), (StartKind::Special, 3), (StartKind::Random, 3), (StartKind::Endgame, 1)],
+                &[(StartKind::Initial, 3), (StartKind::Suite, 4), (StartKind::Special, 3), (StartKind::Random, 3), (StartKind::Endgame, 1), (StartKind::Terminal, 2)],
             );
             start = s;
             scenario = "count-positions";
@@ -254,7 +254,8 @@ pub fn gen_plan(property: &str, seed: u64, index: u64, tier: Tier) -> Plan {
                     stack.pop();
                     pos = stack.last().unwrap().clone();
                 } else {
-                    let k = choose_move(&mut rng, &pos, &legal, Policy::Spicy, None);
+                    let pol = if rng.chance(1, 2) { Policy::Hunt } else { Policy::Spicy };
+                    let k = choose_move(&mut rng, &pos, &legal, pol, None);
                     ops.push(Op::Make(k as u32));
                     pos = pos.make(&legal[k]);
                     stack.push(pos.clone());
@@ -466,7 +467,7 @@ pub fn exec(plan: &Plan) -> Outcome {
                         break;
                     }
                 } else if prop == "C08" {
-                    if legal.is_empty() || *d == 0 {
+                    if *d == 0 {
                         continue;
                     }
                     let t = table.as_ref().unwrap();
@@ -476,6 +477,11 @@ pub fn exec(plan: &Plan) -> Outcome {
                         let mut probe_gen = MoveGenerator::new();
                         let mut probes: Vec<Pos> = vec![cur.clone()];
                         probes.extend(legal.iter().map(|m| cur.make(m)));
+                        if cur.piece_count() <= 6 {
+                            // sparse board: two plies, where stalemates and mates are common
+                            let second: Vec<Pos> = probes[1..].iter().flat_map(|p| p.legal_moves().iter().map(|m| p.make(m)).collect::<Vec<_>>()).collect();
+                            probes.extend(second);
+                        }
                         let mut bad: Option<(String, String)> = None;
                         'probe: for p in probes.iter() {
                             if p.half >= 90 {
@@ -508,6 +514,9 @@ pub fn exec(plan: &Plan) -> Outcome {
                             out.violation = Some(Violation { class, detail, at_op: i });
                             break;
                         }
+                    }
+                    if legal.is_empty() {
+                        continue;
                     }
                     let mut fresh_ctx;
                     let c: &mut SearchContext = if reuse {
@@ -569,6 +578,14 @@ pub fn exec(plan: &Plan) -> Outcome {
                 set_phase("perft");
                 stats.bump("op-perft");
                 stats.bump(&format!("perft-depth/{}", d));
+                match cur.legal_moves().len() {
+                    0 => stats.bump("probe/count-on-terminal-position"),
+                    1 => stats.bump("probe/count-on-single-reply-position"),
+                    _ => {}
+                }
+                if cur.in_check(cur.stm) {
+                    stats.bump("probe/count-on-position-in-check");
+                }
                 let mut want: u64 = 0;
                 for k in 1..=(*d as u32 + 1) {
                     want += cur.perft(k);
